@@ -41,6 +41,7 @@ func ruleC18(w *World, r *Report) {
 		"R18.5 crash obligations of the loader functions, the comment pattern compiles; R18.6 structure of the comment pattern (regexp/syntax tree): line comment to end of line under (?m), block comment with a lazy body that cannot cross a newline; R18.7 shipped samples: comments only of the two supported shapes and outside strings, no string contains a comment marker, Go-known keys carry values of the field's JSON kind, validator-relevant literals satisfy the validator's facts."
 	r.Explanation += " R18.8 no custom UnmarshalJSON/UnmarshalText between Conf and a pre-decode default replaces its receiver with a value that does not start from the receiver."
 	r.Explanation += " R18.1 (cont.) the file is decoded into a configuration local to the call."
+	r.Explanation += " R18.1/R18.3 (cont.) the configuration cell is the decoder's target, temporaries copied into it are followed; the mode set may be a package-level table or a switch."
 	r.NotDecided = "behaviour of encoding/json, regexp and time.ParseDuration themselves; 'every sample loads' beyond the cross-artifact agreement of R18.7; NewIPPool's own size limit (a /31 or /32 pool parses but is refused at start-up)"
 
 	load := w.Fn(P, "pfcpiface.LoadConfigFile")
